@@ -67,6 +67,7 @@ def parseOp (line : String) : Option Op :=
   | ["srange", a, b, c, w] => do some (.srange (← n? a) (← n? b) (← n? c) w)
   | ["inp", a, b, c] => do some (.inp (← n? a) (← n? b) (← n? c))
   | ["input"] => some .input
+  | ["inpr", a, b, c] => do some (.inpr (← n? a) (← n? b) (← n? c))
   | ["rest", w] => some (.rest w)
   | ["resto", w] => some (.resto w)
   | ["clones", a] => do some (.clones (← n? a))
